@@ -172,6 +172,8 @@ pub struct Quirks {
     pub injected_headers: Vec<(String, Vec<u8>, bool)>,
     /// repeated parameters inside the Authorization header: (name, value, before the real one)
     pub dup_header_params: Vec<(String, String, bool)>,
+    /// unknown parameters (`Filler<i>=x`) inserted at the front of the Authorization parameter list
+    pub header_param_fillers: usize,
     /// extra Authorization headers: (value, before the real one)
     pub dup_authorization: Vec<(Vec<u8>, bool)>,
     /// repeated X-Amz-* query parameters: (name, value, before the real one). These are part of
@@ -696,6 +698,11 @@ pub fn render(m: &Message, t: &mut Tape, o: &RenderOpts) -> Wire {
         if let Some(p) = &q.no_eq_param {
             let pos = t.below(params.len() + 1);
             params.insert(pos, p.clone());
+        }
+        for i in 0..q.header_param_fillers {
+            // parameters the verifier does not know are ignored, however many there are
+            let pos = (i * 7) % (params.len() + 1);
+            params.insert(pos, format!("Filler{}=x", i));
         }
         let mut v = q.algorithm.clone().unwrap_or_else(|| "AWS4-HMAC-SHA256".into());
         if !params.is_empty() {
